@@ -8,6 +8,7 @@ use libp2p::Multiaddr;
 use simkit::RunReport;
 use std::collections::{BTreeMap, BTreeSet};
 use std::os::unix::fs::MetadataExt;
+use std::future::Future;
 use std::panic::{catch_unwind, resume_unwind, AssertUnwindSafe};
 use std::path::PathBuf;
 use std::str::FromStr;
@@ -509,7 +510,66 @@ impl<'a> World<'a> {
         self.probe_load();
     }
 
+    /// What a starting node / client does with the cache: `PeersArgs::get_bootstrap_addr` with one `--peer` address
+    /// given (no network contacts, so nothing is fetched). Whatever state the cache file is in - absent, well-formed,
+    /// corrupt, of another network - the lookup succeeds and returns the given address: "a corrupt or foreign file is
+    /// ignored without crashing".
+    fn probe_lookup(&mut self) {
+        let given: libp2p::Multiaddr = good_addr(self.plan.ukey, self.plan.n_peers + 7, 0).parse().expect("multiaddr");
+        let (args, cfg) = if self.plan.via_peers_args {
+            let dir = self.path.parent().expect("custom dir").to_path_buf();
+            let decoy = dir.parent().expect("run dir").join("default-location").join("decoy_cache.json");
+            (
+                ant_bootstrap::PeersArgs { addrs: vec![given.clone()], disable_mainnet_contacts: true, bootstrap_cache_dir: Some(dir), ..Default::default() },
+                self.cfg.clone().with_cache_path(&decoy),
+            )
+        } else {
+            (ant_bootstrap::PeersArgs { addrs: vec![given.clone()], disable_mainnet_contacts: true, ..Default::default() }, self.cfg.clone())
+        };
+        let res = catch_unwind(AssertUnwindSafe(|| {
+            let mut fut = Box::pin(args.get_bootstrap_addr(Some(cfg), None));
+            let mut cx = std::task::Context::from_waker(std::task::Waker::noop());
+            match fut.as_mut().poll(&mut cx) {
+                std::task::Poll::Ready(r) => Some(r),
+                std::task::Poll::Pending => None,
+            }
+        }));
+        let state = format!("{:?}", self.file_state);
+        match res {
+            Err(p) => {
+                let msg = panic_text(p);
+                self.viol("lookup.panic", &[("file", state)], format!("PeersArgs::get_bootstrap_addr panicked: {msg}"))
+            }
+            Ok(None) => {
+                self.rep.harness_error = Some("get_bootstrap_addr went to the network although no contacts are configured".into());
+                self.stop = true;
+            }
+            Ok(Some(Err(e))) => self.viol(
+                "lookup.failed_because_of_the_cache_file",
+                &[("file", state)],
+                format!("with a --peer address given, PeersArgs::get_bootstrap_addr failed: {e} (the cache file is only an optional source)"),
+            ),
+            Ok(Some(Ok(list))) => {
+                if !list.iter().any(|a| a.addr == given) {
+                    self.viol("lookup.given_peer_missing", &[("file", state)], "the address given with --peer is not among the bootstrap addresses returned".into());
+                } else {
+                    self.rep.probe(match self.file_state {
+                        FileState::Corrupt => "lookup_ok_over_corrupt_or_foreign_file",
+                        FileState::Absent => "lookup_ok_without_file",
+                        FileState::Clean => "lookup_ok",
+                    });
+                }
+            }
+        }
+    }
+
     fn probe_load(&mut self) {
+        if !self.stop {
+            self.probe_lookup();
+            if self.stop {
+                return;
+            }
+        }
         let own = self.last_bytes.as_ref().and_then(|b| parse_file(b));
         let cfg = self.cfg.clone();
         let _ = hooks::take_trim_window();
